@@ -34,7 +34,7 @@ pub fn call_line<R: Resampler<f64>, N: crate::nd::Nondet, const MI: usize, const
     tau: &mut [f64; MO],
 ) -> (bool, usize, usize) {
     let n = r.input_frames_next();
-    nd.assume(n <= MI);
+    crate::fit!(nd, n <= MI, "C04.demand_fits_scenario_bound[base]");
     let mut x = [0.0f64; MI];
     crate::drive::fill_line(&mut x[..], st.supplied);
     let mut out = [SENT; MO];
@@ -524,7 +524,7 @@ harnesses! {
         let mut c = 0;
         while c < 2 {
             let n = r.input_frames_next();
-            nd.assume(n <= 14);
+            crate::fit!(nd, n <= 14, "C04.demand_fits_scenario_bound[base]");
             let mut x = [0.0f64; 14];
             unroll32!(i, 14, { x[i] = p((pos + i) as f64); });
             let mut o = [SENT; 3];
